@@ -1,13 +1,14 @@
-SPECIFICATION Spec
+SPECIFICATION WSpec
 CONSTANTS
   OpenDev = {}
   States <- ExpStates
   CmdU <- ExpCmds
   Relevant <- ExpRelevant
   Fam = "expiry"
-ACTION_CONSTRAINT Emit
-VIEW View
-INVARIANT WellFormed
-PROPERTY FailedInert
-PROPERTY ExpiredIsMissing
+  Vocab <- WVocab
+  Depth = 8
+  TreeOk <- AnyProg
+  WalkOk <- WOk
+INVARIANT WPrint
+INVARIANT TWellFormed
 CHECK_DEADLOCK FALSE
